@@ -80,3 +80,63 @@ def fits(trajs, dtype):
     lo, hi = {'int8': (-128, 127), 'int16': (-32768, 32767),
               'int32': (-2**31, 2**31 - 1), 'int64': (-2**63, 2**63 - 1)}[dtype]
     return all(lo <= v <= hi for t in trajs for v in t)
+
+
+def runs_traj(rng, labs, nruns, long_runs=(130, 150, 200, 255, 256, 300)):
+    """a trajectory given by explicit run lengths, some of them longer than 127 / 255 frames"""
+    out, prev = [], None
+    for _ in range(nruns):
+        a = rng.choice([x for x in labs if x != prev] or labs)
+        n = rng.choice([1, 1, 2, 3, 5, 8] + list(long_runs))
+        out += [a] * n
+        prev = a
+    return out
+
+
+def narrow_set(rng, style=None):
+    """trajectory sets that stress narrow integer types: contiguous 0- or 1-based labels (the
+    constructor keeps the input dtype for those), trajectories longer than 127 / 255 frames in
+    int8 / uint8, or more than 128 states spread over arrays of different widths (narrow first).
+    Returns (trajs, dtypes, tag)."""
+    style = style or rng.choice(['long-int8', 'long-int8', 'many-mixed', 'many-unsigned'])
+    base = rng.choice([0, 1])
+    if style == 'long-int8':
+        k = rng.randint(2, 4)
+        labs = list(range(base, base + k))
+        trajs = [runs_traj(rng, labs, rng.randint(3, 9)) for _ in range(rng.choice([1, 1, 2]))]
+        trajs[0] = trajs[0] + labs
+        return trajs, [rng.choice(['int8', 'uint8', 'int16'])] * len(trajs), style
+    k = rng.randint(129, 180)
+    labs = list(range(base, base + k))
+    low = labs[:100]
+    t1 = traj(rng, low, rng.randint(50, 150), sticky=0.3)
+    order = labs[:]
+    rng.shuffle(order)
+    t2 = order + traj(rng, labs, rng.randint(50, 150), sticky=0.2)
+    t3 = traj(rng, low, rng.randint(1, 30), sticky=0.5)
+    if style == 'many-mixed':
+        return [t1, t2, t3], ['int8', rng.choice(['int16', 'int64']), 'int8'], style
+    return [t1, t2, t3], ['int8', 'uint8', 'int8'], style
+
+
+def expand(case):
+    """trajectories of a case: given literally ('trajs') or run-length encoded ('rle': per trajectory
+    a list of [label, count]) so that replay files of very long trajectories stay small"""
+    if case.get('trajs') is not None:
+        return case['trajs']
+    return [[a for a, n in t for _ in range(n)] for t in case['rle']]
+
+
+def rare_rle(rng, labs):
+    """one long trajectory in which the first state has several 1e5 outgoing counts and two
+    transitions that were seen once or twice only (probability below 1e-5)"""
+    a, rest = labs[0], labs[1:]
+    t = []
+    for _ in range(rng.randint(2, 3)):
+        t.append([a, rng.randint(110000, 140000)])
+        b = rng.choice(rest)
+        t.append([b, rng.randint(1, 6)])
+        if len(rest) > 1 and rng.random() < 0.6:
+            t.append([rng.choice([x for x in rest if x != b]), rng.randint(1, 4)])
+    t.append([a, rng.randint(2, 9)])
+    return [t]
